@@ -150,7 +150,12 @@ func (w *writer) codeFromTree(tree *RegexTree) (*Code, error) {
 	if prefix != nil && len(prefix.PrefixStr) > 0 && MaxPrefixSize > 0 {
 		if len(prefix.PrefixStr) > MaxPrefixSize {
 			// limit prefix changes to 10k
-			prefix.PrefixStr = prefix.PrefixStr[:MaxPrefixSize]
+			if rtl {
+				// a right-to-left scan is positioned by the end of the literal: keep its tail
+				prefix.PrefixStr = prefix.PrefixStr[len(prefix.PrefixStr)-MaxPrefixSize:]
+			} else {
+				prefix.PrefixStr = prefix.PrefixStr[:MaxPrefixSize]
+			}
 		}
 		bmPrefix = newBmPrefix(prefix.PrefixStr, prefix.CaseInsensitive, rtl)
 	} else {
